@@ -348,6 +348,73 @@ echo $out, "|", $ch->isClosed() ? "closed" : "open", "|", $ch->send(5) ? "sent" 
                     ck.violation("script:spawn-channel", {"mode": "script", "case": {"src": SCRIPT}, "impl_out": r,
                                                           "clause": "script level (spawn + Channel class): 3 producers x 3 distinct values, closer, consumer polling isClosed()/len(): every value exactly once, per-producer order, then closed|refused|cap"})
                     break
+    # spawned producers AND a spawned collector that depend on each other in rounds (main only waits for the report);
+    # the number of spawned coroutines is well above 2*GOMAXPROCS and GOMAXPROCS varies (process-level: the engine is
+    # started with the GOMAXPROCS environment variable): "spawn runs the closure on a goroutine of its own" must hold
+    # however many closures are parked on channel operations (seeded change C09-5: a semaphore of 2*GOMAXPROCS slots)
+    def collector_script(P, R):
+        return """$ch = new Channel(0);
+$report = new Channel(1);
+$next = [];
+for ($p = 0; $p < %(P)d; $p++) { $next[] = new Channel(0); }
+for ($p = 0; $p < %(P)d; $p++) {
+    $go = $next[$p];
+    spawn(function() use ($ch, $go, $p) {
+        for ($r = 0; $r < %(R)d; $r++) { $ch->send($p * 100 + $r); $go->receive(); }
+    });
+}
+spawn(function() use ($ch, $next, $report) {
+    $seen = [];
+    for ($r = 0; $r < %(R)d; $r++) {
+        for ($k = 0; $k < %(P)d; $k++) { $seen[] = $ch->receive(); }
+        for ($k = 0; $k < %(P)d; $k++) { $next[$k]->send(true); }
+    }
+    $ch->close();
+    $report->send($seen);
+});
+$seen = $report->receive();
+echo implode(",", $seen), "|", $ch->isClosed() ? "closed" : "open", "|", $ch->receive() === null ? "null" : "value", "|", $ch->send(1) ? "sent" : "refused";
+""" % {"P": P, "R": R}
+    nspawn = 0
+    if not ck.replay or json.load(open(ck.replay)).get("mode") == "spawn":
+        if ck.replay:
+            cfgs = [tuple(json.load(open(ck.replay))["case"][k] for k in ("gomaxprocs", "producers", "rounds"))]
+        else:
+            cfgs = [(1, 3, 3), (1, 7, 2), (2, 6, 2), (2, 11, 2), (4, 12, 2), (16, 40, 2)]
+            if ck.tier != "quick":
+                cfgs += [(g, P, 3) for g in (1, 2, 4, 8, 16) for P in (2 * g + 1, 3 * g + 2, 5 * g)]
+        rep = 8 if ck.tier == "quick" else 60
+        results = [None] * len(cfgs)
+
+        def spawn_work(k):
+            g, P, R = cfgs[k]
+            env = dict(os.environ, GOMAXPROCS=str(g))
+            results[k] = vworker.run_worker([racebin, "script"], [{"src": collector_script(P, R), "repeat": rep}], per_case_timeout=120, env=env, restart_exit_codes=(3,))[0]
+        sth = [threading.Thread(target=spawn_work, args=(k,)) for k in range(len(cfgs))]
+        for t in sth:
+            t.start()
+        for t in sth:
+            t.join()
+        for (g, P, R), o in zip(cfgs, results):
+            case = {"gomaxprocs": g, "producers": P, "rounds": R, "src": collector_script(P, R)}
+            if o is None or "worker_death" in o:
+                death_violation(ck, "spawn", case, (o or {}).get("worker_death", {"signature": "driver-thread-failed"}))
+                continue
+            for r in o.get("runs", []):
+                nspawn += 1
+                parts = r["out"].strip().split("|")
+                ok = r["outcome"] == "ok" and len(parts) == 4
+                if ok:
+                    vals = [int(x) for x in parts[0].split(",") if x]
+                    ok = sorted(vals) == sorted(p_ * 100 + r_ for p_ in range(P) for r_ in range(R)) and \
+                        all([v % 100 for v in vals if v // 100 == p_] == list(range(R)) for p_ in range(P)) and \
+                        parts[1:] == ["closed", "null", "refused"]
+                if not ok:
+                    kind = "hang" if r["outcome"] == "hang" else "wrong"
+                    ck.violation("script:spawned-collector:%s:gomaxprocs=%d" % (kind, g), {"mode": "spawn", "case": case, "impl_out": r,
+                                 "clause": "script level: %d spawned producers on an unbuffered Channel + a spawned collector, in %d rounds, GOMAXPROCS=%d: the script finishes (watchdog 8 s), every value exactly once, per-producer order, then closed|null|refused" % (P, R, g)})
+                    break
+    ck.cov["script_spawned_collector_runs"] = nspawn
     ck.cov["script_level_runs"] = nscript
 
     # ---------------------------------------------------------------- evidence
@@ -367,5 +434,5 @@ echo $out, "|", $ch->isClosed() ? "closed" : "open", "|", $ch->send(5) ? "sent" 
     ck.cov["stress_failures"] = nfail
     ck.samples = [dict(tmap[len(tmap) // 2][0], chosen=tmap[len(tmap) // 2][1].get("chosen")) if tmap else None]
     ck.finish(level="proof", evaluations=nsched + len(sterms), distinct_nontrivial=sum(1 for c, tr in tmap if len(tr["rounds"]) >= 4 and (any(r["blocked"] for r in tr["rounds"]) or any(len(r["events"]) > 1 for r in tr["rounds"]))),
-              rule="controlled schedules: DFS over the scheduler's decision points (op boundaries + the two verif yield points) for 11 thread-program shapes x capacities 0,1,2 (thorough: 0..4), at most `budget` schedules per configuration (a configuration whose schedule space exceeds the budget is explored only partially: see explored_configs_budget_exhausted), plus seeded random schedules for 1-3 producers x 1-3 consumers x 1 closer with <= 3 ops each over capacities 0..4; stress: free-running goroutines under -race for up to 3 producers x 3 consumers x 1 closer, capacities 0..4, GOMAXPROCS 1..16; non-trivial = schedule of >= 4 rounds in which some goroutine blocked or was woken by another's step",
+              rule="controlled schedules: DFS over the scheduler's decision points (op boundaries + the two verif yield points) for 16 thread-program shapes (incl. two and three concurrent closers) x capacities 0,1,2 (thorough: 0..4), at most `budget` schedules per configuration (a configuration whose schedule space exceeds the budget is explored only partially: see explored_configs_budget_exhausted), plus seeded random schedules for 1-3 producers x 1-3 consumers x 1-2 closers with <= 3 ops each over capacities 0..4; stress: free-running goroutines under -race for up to 3 producers x 3 consumers x 1-3 closers, capacities 0..4, GOMAXPROCS 1..16; script level: main-goroutine consumer (150 runs) and spawned producers + spawned collector with GOMAXPROCS 1..16 and more than 2*GOMAXPROCS coroutines (hang watchdog); non-trivial = schedule of >= 4 rounds in which some goroutine blocked or was woken by another's step",
               traces=len(terms) + len(sterms))
